@@ -340,7 +340,7 @@ pub fn run(tier: Tier) -> i32 {
     let mut classes = r.classes.len() as u64;
     let mut complete = r.completed;
     // start-up refusal for invalid assignments is C13's table; here: reload histories
-    let depth = tier.pick(4u32, 6u32);
+    let depth = tier.pick(4u32, 7u32);
     let mut total = 0u64;
     for len in 1..=depth {
         total += 8u64.pow(len);
